@@ -120,7 +120,7 @@ REACH = ['GenericModel.py:GenericModel.save', 'GenericModel.py:GenericModel.load
          'thermo/Surrogate.py:BinarySurrogate.getInterfacialComposition', 'thermo/Surrogate.py:MulticomponentSurrogate.curvatureFactor',
          'thermo/Surrogate.py:MulticomponentSurrogate.getGrowthAndInterfacialComposition',
          'thermo/Surrogate.py:MulticomponentSurrogate.impingementFactor']
-NCASES = {'quick': {'precip': 54, 'diffusion': 36, 'surrogate': 40}, 'thorough': {'precip': 900, 'diffusion': 540, 'surrogate': 390}}
+NCASES = {'quick': {'precip': 54, 'diffusion': 36, 'surrogate': 53}, 'thorough': {'precip': 900, 'diffusion': 540, 'surrogate': 435}}
 MIN_NONTRIVIAL = {'quick': 150, 'thorough': 2500}
 CASE_TIMEOUT = 600
 CASE_TIMEOUT_THOROUGH = 900
@@ -334,13 +334,25 @@ def _plan_diffusion(rng, n, tier):
     return cases
 
 
+# training subsets: (quantities per admissible precPhase value, trained diffusivity phases); Q2 = interfacial composition (binary) / curvature
+def _subsets(fam, q2):
+    DF, ALL = ['drivingForce'], ['drivingForce', q2]
+    if fam in ('binary', 'multi'):
+        return [([ALL], [0]), ([[q2]], []), ([[q2]], [0]), ([DF], [0]), ([ALL], []), ([[]], [0]), ([DF], []), ([[q2]], [])]
+    if fam in ('binary2', 'multiphase'):
+        return [([DF, [q2]], [0]), ([[q2], DF], []), ([[q2], []], [0]), ([[], [q2]], []), ([ALL, ALL], [0]), ([[q2], [q2]], []),
+                ([ALL, []], []), ([[], ALL], [0]), ([[], DF], [])]
+    return [([], [1]), ([], [0, 1]), ([], [0])]                  # fecrni: only the second, both, only the first phase
+
+
 def _plan_surrogate(rng, n, tier):
-    n_mp, n_fe = (6, 9) if tier == 'quick' else (30, 60)       # Al-Mg-Si (two precipitate phases) / Fe-Cr-Ni (two phases with mobilities)
-    fams = _deck(rng, ['binary', 'multi'], n - n_mp - n_fe) + ['multiphase'] * n_mp + ['fecrni'] * n_fe
+    # Al-Mg-Si (two precipitate phases), Fe-Cr-Ni (two phases with mobilities), binary Ni-Al (two precipitate phases)
+    n_mp, n_fe, n_b2 = (6, 6, 9) if tier == 'quick' else (36, 45, 54)
+    fams = _deck(rng, ['binary', 'multi'], n - n_mp - n_fe - n_b2) + ['multiphase'] * n_mp + ['fecrni'] * n_fe + ['binary2'] * n_b2
     m = len(fams)
     D = {'logX': _deck(rng, [False, True], m), 'broadcast': _deck(rng, [True, False], m), 'kernel': _deck(rng, KERNELS, m),
          'nT': _deck(rng, [1, 2, 3, 2, 3], m)}
-    which = [[1], [0, 1], [0]]                                  # trained phases: only the second, both, only the first admissible value
+    count = {}
     cases = []
     for i, fam in enumerate(fams):
         bc = D['broadcast'][i]
@@ -354,15 +366,14 @@ def _plan_surrogate(rng, n, tier):
             npts = None
         else:
             nx, npts = None, int(rng.integers(6, 16))
-        c = {'kind': 'surrogate', 'family': fam, 'logX': bool(D['logX'][i]), 'broadcast': bool(bc),
-             'kernel': dict(D['kernel'][i]), 'nT': int(nT), 'nx': nx, 'npts': npts,
-             'ng': int(rng.integers(3, 7)), 'train_prec': [0], 'train_diff': [0],
-             'weight': {'binary': 5.0, 'multi': 10.0, 'multiphase': 8.0, 'fecrni': 5.0}[fam]}
-        if fam == 'multiphase':
-            c['train_prec'] = which[i % 3]
-        if fam == 'fecrni':
-            c['train_diff'] = which[i % 3]
-        cases.append(c)
+        subs = _subsets(fam, 'interfacialComposition' if fam in ('binary', 'binary2') else 'curvature')
+        k = count.get(fam, 0)
+        count[fam] = k + 1
+        prec, diff = subs[k % len(subs)]
+        cases.append({'kind': 'surrogate', 'family': fam, 'logX': bool(D['logX'][i]), 'broadcast': bool(bc),
+                      'kernel': dict(D['kernel'][i]), 'nT': int(nT), 'nx': nx, 'npts': npts,
+                      'ng': int(rng.integers(3, 7)), 'train': {'prec': [list(q) for q in prec], 'diff': list(diff)},
+                      'weight': {'binary': 5.0, 'multi': 10.0, 'multiphase': 8.0, 'fecrni': 5.0, 'binary2': 12.0}[fam]})
     return cases
 
 
@@ -789,6 +800,9 @@ class _Fam:
         if self.family == 'binary':
             self.system, self.phases, self.binary = 'alzr', None, True
             self.precs = ['AL3ZR']
+        elif self.family == 'binary2':     # binary Ni-Al of the Ni-Cr-Al test database: two precipitate phases
+            self.system, self.phases, self.binary = 'nial', None, True
+            self.precs = ['FCC_L12', 'BCC_B2']
         elif self.family == 'multi':
             self.system, self.phases, self.binary = 'nialcr', None, False
             self.precs = ['FCC_L12']
@@ -806,6 +820,13 @@ class _Fam:
             from kawin.thermo import GeneralThermodynamics
             import kawin.tests.datasets as ds
             return GeneralThermodynamics(ds.FECRNI_DB, ['FE', 'CR', 'NI'], ['FCC_A1', 'BCC_A2'])      # TDB string: fresh database
+        if self.family == 'binary2':
+            from kawin.thermo import BinaryThermodynamics
+            import kawin.tests.datasets as ds
+            th = BinaryThermodynamics(ds.NICRAL_TDB, ['NI', 'AL'], ['FCC_A1', 'FCC_L12', 'BCC_B2'])
+            th.setDFSamplingDensity(2000)
+            th.setEQSamplingDensity(500)
+            return th
         return precip.make_therm(self.system, self.phases)
 
     def surrogate(self, th):
@@ -820,6 +841,10 @@ class _Fam:
             lo = _loguniform(rng, 3e-4, 1.5e-3)
             return {'x': [(lo, float(lo * rng.uniform(5, 12)))], 'T': (float(rng.uniform(650, 700)), float(rng.uniform(740, 800))),
                     'g': (float(rng.uniform(20, 200)), float(rng.uniform(2000, 8000)))}
+        if self.family == 'binary2':
+            lo = float(rng.uniform(0.12, 0.14))
+            return {'x': [(lo, float(rng.uniform(0.18, 0.21)))], 'T': (float(rng.uniform(880, 920)), float(rng.uniform(980, 1040))),
+                    'g': (float(rng.uniform(20, 100)), float(rng.uniform(500, 900)))}
         if self.family == 'multi':
             a = float(rng.uniform(0.09, 0.10))
             c = float(rng.uniform(0.06, 0.07))
@@ -868,7 +893,7 @@ class _Fam:
             x = cols[0] if ne == 1 else np.stack(cols, axis=1)
             T = lhs(Tlo, Thi, False)
         out = {'x': x, 'T': T}
-        if self.family == 'binary':
+        if self.binary:
             glo, ghi = box['g']
             if c['broadcast']:
                 out['g'] = axis(glo, ghi, c['ng'], True)
@@ -1202,16 +1227,23 @@ def _run_surrogate(case, R):
         R.add_nontrivial(key0 + '-untrained-' + gname)
 
     # ---------------------------------------------------------------- (b) trained reproduces its training data
-    # which phases are trained: indices into the admissible values (default: the first one of each kind)
-    tprec = [F.precs[i] for i in case.get('train_prec', [0]) if i < len(F.precs)]
-    tdiff = [dnames[i] for i in case.get('train_diff', [0]) if i < len(dnames)]
-    R.info['trained_phases'] = {'precPhase': tprec, 'phase': tdiff}
+    # which quantities are trained, per admissible phase value: case['train'] = {'prec': [quantities of precs[0], of precs[1], ...],
+    # 'diff': [indices into dnames]} (older descriptions: 'train_prec' / 'train_diff' = phases for which everything is trained)
+    allq = ['drivingForce', 'interfacialComposition' if F.binary else 'curvature']
+    spec = case.get('train')
+    if spec is None:
+        spec = {'prec': [allq if i in case.get('train_prec', [0]) else [] for i in range(len(F.precs))], 'diff': case.get('train_diff', [0])}
+    tspec = [(F.precs[i], [q for q in qs if q in allq]) for i, qs in enumerate(spec['prec'][:len(F.precs)])]
+    tdiff = [dnames[i] for i in spec['diff'] if i < len(dnames)]
+    R.info['train_spec'] = {'prec': {p: qs for p, qs in tspec}, 'phase': tdiff}
     grid = F.grid(rng, box)
     s, sM = F.surrogate(F.therm()), F.surrogate(F.therm())      # sM: mirror, drives a twin backend through the same training calls
     trained = {}                                                # (kind, phase) -> quantities trained
-    for p in tprec:
+    for p, qs in tspec:
+        if not qs:
+            continue
         for S_, R_ in ((s, R), (sM, quiet)):
-            done = _train_all(F, R_, S_, grid, what=('drivingForce', 'interfacialComposition', 'curvature'), prec=p, plabel=_sel(F.precs, p))
+            done = _train_all(F, R_, S_, grid, what=tuple(qs), prec=p, plabel=_sel(F.precs, p))
             if S_ is s:
                 trained[('prec', p)] = done
     for ph in tdiff:
@@ -1222,13 +1254,21 @@ def _run_surrogate(case, R):
             if S_ is s:
                 trained[('diff', ph)] = done
     R.info['trained'] = {'%s:%s' % k: v for k, v in trained.items()}
-    # what was NOT trained still passes through (before the trained getters are queried: same backend history as the mirror)
-    rest_p = [p for p in F.precs if not trained.get(('prec', p))]
+    # what was NOT trained - per phase value and per quantity - still passes through (before the trained getters are queried:
+    # same backend history as the mirror)
+    calls = []
+    for p in F.precs:
+        have = trained.get(('prec', p)) or []
+        open_groups = ([] if 'drivingForce' in have else ['drivingForce']) + ([] if 'interfacialComposition' in have else ['interfacialComposition']) \
+            + ([] if 'curvature' in have else ['curvature', 'growth', 'impingement'])
+        if open_groups:
+            calls += _untrained_calls(F, rng, box, dnames, precs=[p], dphases=[], default_prec=(p == F.precs[0]), default_diff=False,
+                                      groups=open_groups)
     rest_d = [ph for ph in dnames if not trained.get(('diff', ph))]
-    if rest_p or rest_d:
-        calls = _untrained_calls(F, rng, box, dnames, precs=rest_p, dphases=rest_d,
-                                 default_prec=bool(F.precs) and F.precs[0] in rest_p, default_diff=dnames[0] in rest_d)
-        groups = _passthrough(F, R, s, sM.therm, calls, 'other_phase_trained' if trained else 'nothing_trained')
+    if rest_d:
+        calls += _untrained_calls(F, rng, box, dnames, precs=[], dphases=rest_d, default_prec=False, default_diff=dnames[0] in rest_d)
+    if calls:
+        groups = _passthrough(F, R, s, sM.therm, calls, 'partly_trained' if any(trained.values()) else 'nothing_trained')
         for gname in groups:
             R.add_nontrivial(key0 + '-rest-' + gname)
     nt_all = []
@@ -1315,7 +1355,7 @@ def _run_surrogate(case, R):
             for (kind, ph), qs in trained.items():
                 if qs and kind == 'diff':
                     _check_trained(R, F, s2, qs, dkey=ph, vec_dkw={'phase': ph}, dnames=dnames)
-                elif qs and kind == 'prec' and len(F.precs) > 1:
+                elif qs and kind == 'prec':
                     _check_trained(R, F, s2, qs, prec=ph, vec_pkw={'precPhase': ph}, dnames=dnames)
             for kind, ph, q in nt_all:
                 R.add_nontrivial(key0 + '-json-%s-%s' % (q, _sel(F.precs if kind == 'prec' else dnames, ph)))
